@@ -503,6 +503,9 @@ func WriteComment(w *formatting.IndentedWriter, comment string) {
 
 func WriteDocstring(w *formatting.IndentedWriter, comment string) {
 	comment = strings.TrimSpace(comment)
+	// the text is placed in a (non-raw) triple-quoted string literal
+	comment = strings.ReplaceAll(comment, "\\", "\\\\")
+	comment = strings.ReplaceAll(comment, "\"\"\"", "\\\"\\\"\\\"")
 	if strings.HasPrefix(comment, "\"") {
 		comment = " " + comment
 	}
